@@ -239,6 +239,14 @@ def run(ctx):
         o = dep.arg_origins(rs, bb, 1, through_calls=False)
         if not dep.has_field(o, "AddressPair", "remote"):
             probs.append("the table is queried for something other than the (possibly substituted) remote address")
+    # the substitution comes first: no table query / request may happen before the subnet decision
+    if len(lk) == 1:
+        for bb, t in gcl + list(sends):
+            what = (F.callee(t) or {}).get("pretty", "").rsplit("::", 1)[-1]
+            if not rg.dominates(lk[0][0], bb):
+                probs.append("%s at %s can run before the subnet configuration is consulted: an off-subnet address is resolved directly instead of through the default gateway" % (what, F.call_loc(t)))
+            elif len(ws) == 1 and rg.reaches(bb, ws[0][0]):
+                probs.append("%s at %s can run before endpoints.remote is replaced by the default gateway" % (what, F.call_loc(t)))
     if sends:
         o = dep.arg_origins(rs, sends[0][0], 1, through_calls=False)
         if not any(a[0] == "local" or a[0] == "upvar" for a in o) and not dep.has_field(o, "AddressPair", "remote") and not _is_named(rs, F.call_args(sends[0][1])[1], "endpoints"):
